@@ -16,9 +16,9 @@ Definition caps3 : list (nat * nat) := [(4, 5); (4, 5); (4, 5)].
 Definition all3 : list nat := [0; 1; 2].
 Definition gen1 : list nact :=
   [AInstr 0 (QInitApp 0 2); AInstr 1 (QInitApp 0 3); AInstr 2 (QInitApp 0 2);
-   ACreate 0 0 0 all3 1 true 0;                       (* host 0 -> node 1, socket 0; kept half at address 0 *)
-   ACreate 2 0 0 all3 1 true 1;                       (* host 2 -> node 1, socket 1 *)
-   ACreate 0 0 1 all3 2 false 0;                      (* refused: not adjacent; nothing happens *)
+   ACreate 0 0 0 all3 1 true 0 [];                       (* host 0 -> node 1, socket 0; kept half at address 0 *)
+   ACreate 2 0 0 all3 1 true 1 [];                       (* host 2 -> node 1, socket 1 *)
+   ACreate 0 0 1 all3 2 false 0 [];                      (* refused: not adjacent; nothing happens *)
    ARecv 1 0 0 0; ARecv 1 0 1 1;                      (* host 1 claims both halves: addresses 0 and 1 *)
    ARecv 1 0 2 1;                                     (* nothing delivered on socket 1 any more: timeout *)
    AInstr 1 (QG2 0 0 1 VCnot);                        (* repeater gate: both operands simulated elsewhere *)
@@ -30,7 +30,7 @@ Definition stop0 : nact := AInstr 0 (QStopApp 0 [true]).
 Definition stops12 : list nact := [AInstr 1 (QStopApp 0 [false; true]); AInstr 2 (QStopApp 0 [false])].
 Definition gen2 : list nact :=
   [AInstr 1 (QInitApp 1 1); AInstr 0 (QInitApp 1 1);
-   ACreate 1 1 0 all3 0 true 3; ARecv 0 1 0 3; AInstr 0 (QFree 1 0 true);
+   ACreate 1 1 0 all3 0 true 3 []; ARecv 0 1 0 3; AInstr 0 (QFree 1 0 true);
    AInstr 0 (QStopApp 1 []); AInstr 1 (QStopApp 1 [true])].
 Definition repeater : list nact := gen1 ++ [stop0] ++ stops12 ++ gen2.
 
@@ -82,7 +82,7 @@ Proof. vm_compute. reflexivity. Qed.
    unit module is gone -- and node 1 still holds the half, simulated in a register of node 0.  The hypothesis
    n_pend = [] of net_stop_leaves_nothing cannot be dropped. *)
 Definition unclaimed_history : list nact :=
-  [AInstr 0 (QInitApp 0 1); AInstr 1 (QInitApp 0 1); ACreate 0 0 0 [0; 1] 1 true 0;
+  [AInstr 0 (QInitApp 0 1); AInstr 1 (QInitApp 0 1); ACreate 0 0 0 [0; 1] 1 true 0 [];
    AInstr 0 (QStopApp 0 [false]); AInstr 1 (QStopApp 0 [])].
 Example unclaimed_half_stays :
   cleans (ninit [(4, 5); (4, 5)]) unclaimed_history /\
@@ -92,11 +92,41 @@ Example unclaimed_half_stays :
   populations (nrun (ninit [(4, 5); (4, 5)]) unclaimed_history) = [(0, 1, 1, 1); (1, 0, 0, 0)].
 Proof. split; [apply cleansb_ok; vm_compute; reflexivity|]. vm_compute. repeat split; reflexivity. Qed.
 
-(* the excluded case is the known defect: a creation refused by a full receiver leaves both temporaries and is not clean *)
-Example failed_creation_is_not_clean :
-  ~ clean (nrun (ninit [(4, 5); (0, 5)]) [AInstr 0 (QInitApp 0 2)]) (ACreate 0 0 0 [0; 1] 1 true 0).
+(* the formerly excluded case (the former finding C11:epr-temporaries): a creation refused by a full receiver after both
+   temporaries exist, and one refused by the creator's own node at the second cmd_new.  Both are ordinary clean actions now:
+   the request answers an error, the populations of all nodes and the creator's host are what they were before the request
+   (the creator holds another qubit before and after), the stop completes and leaves nothing *)
+Definition caps_full : list (nat * nat) := [(4, 5); (0, 5)].
+Definition before_full : list nact := [AInstr 0 (QInitApp 0 2); AInstr 0 (QAlloc 0 1)].
+Definition create_full : nact := ACreate 0 0 0 [0; 1] 1 true 0 [true; false].
+Definition after_full : list nact := [AInstr 0 (QStopApp 0 [false])].
+Example failed_creation_is_clean :
+  cleans (ninit caps_full) (before_full ++ [create_full] ++ after_full) /\
+  fails_after_temporary 0 (mkQ (n_net (nrun (ninit caps_full) before_full)) (host_at (nrun (ninit caps_full) before_full) 0))
+    [0; 1] 1 true (fresh_id (h_used (host_at (nrun (ninit caps_full) before_full) 0))) [true; false] /\
+  nrun_res (ninit caps_full) (before_full ++ [create_full] ++ after_full) = [RDone None; RDone None; RErr; RDone None] /\
+  populations (nrun (ninit caps_full) before_full) = [(1, 1, 1, 1); (0, 0, 0, 0)] /\
+  populations (nrun (ninit caps_full) (before_full ++ [create_full])) = [(1, 1, 1, 1); (0, 0, 0, 0)] /\
+  n_hosts (nrun (ninit caps_full) (before_full ++ [create_full])) = n_hosts (nrun (ninit caps_full) before_full) /\
+  populations (nrun (ninit caps_full) (before_full ++ [create_full] ++ after_full)) = [(0, 0, 0, 0); (0, 0, 0, 0)].
 Proof.
-  intros [C _]. apply C. unfold leaves_temporaries. split.
-  - vm_compute. discriminate.
-  - exists 0. vm_compute. auto.
+  split; [apply cleansb_ok; vm_compute; reflexivity|]. split.
+  - split; [vm_compute; discriminate|]. exists 1. vm_compute. auto.
+  - vm_compute. repeat split; reflexivity.
+Qed.
+
+Definition caps_tight : list (nat * nat) := [(2, 5); (4, 5)].
+Definition create_tight : nact := ACreate 0 0 0 [0; 1] 1 true 0 [true].
+Example failed_second_creation_is_clean :
+  cleans (ninit caps_tight) (before_full ++ [create_tight] ++ after_full) /\
+  fails_after_temporary 0 (mkQ (n_net (nrun (ninit caps_tight) before_full)) (host_at (nrun (ninit caps_tight) before_full) 0))
+    [0; 1] 1 true (fresh_id (h_used (host_at (nrun (ninit caps_tight) before_full) 0))) [true] /\
+  nrun_res (ninit caps_tight) (before_full ++ [create_tight] ++ after_full) = [RDone None; RDone None; RErr; RDone None] /\
+  populations (nrun (ninit caps_tight) (before_full ++ [create_tight])) = populations (nrun (ninit caps_tight) before_full) /\
+  n_hosts (nrun (ninit caps_tight) (before_full ++ [create_tight])) = n_hosts (nrun (ninit caps_tight) before_full) /\
+  populations (nrun (ninit caps_tight) (before_full ++ [create_tight] ++ after_full)) = [(0, 0, 0, 0); (0, 0, 0, 0)].
+Proof.
+  split; [apply cleansb_ok; vm_compute; reflexivity|]. split.
+  - split; [vm_compute; discriminate|]. exists 1. vm_compute. auto.
+  - vm_compute. repeat split; reflexivity.
 Qed.
